@@ -1,6 +1,8 @@
 import Deb822Verif.Driver.Proto
 import Deb822Verif.Model.RelParse
 import Deb822Verif.Model.RelAccess
+import Deb822Verif.Model.RelLossy
+import Deb822Verif.Spec.RelGrammar
 namespace Deb822Verif.Driver.Rel
 open Deb822Verif Proto Rel
 
@@ -40,6 +42,136 @@ def viewRoot (root : RNode) : String :=
   s!"subst=[{encList (substvars root)}] entries={(entries root).length}"
     ++ String.join ((entries root).map fun e => " " ++ viewEntry e)
 
+/-! ### C10: structured fields -/
+open RelSpec in
+/-- a gap string -> pieces (newlines and maximal runs of anything else) -/
+def gapOfStr : Str → Gap
+  | [] => []
+  | c :: cs =>
+    if c = '\n' then .nl :: gapOfStr cs
+    else match gapOfStr cs with
+      | .ws s :: g => .ws (c :: s) :: g
+      | g => .ws [c] :: g
+
+open RelSpec in
+def decGap (h : String) : Option Gap := do pure (gapOfStr (← decStr h))
+
+def decOptStr (h : String) : Option (Option Str) :=
+  if h == "none" then some none else do pure (some (← decStr h))
+
+def decOp (h : String) : Option VC :=
+  match h with
+  | "ge" => some .GreaterThanEqual | "le" => some .LessThanEqual | "eq" => some .Equal
+  | "gt" => some .GreaterThan | "lt" => some .LessThan | _ => none
+
+open RelSpec in
+def decItem (h : String) : Option Item :=
+  match h.splitOn "." with
+  | [g, n, nm] => do pure ⟨← decGap g, n == "1", ← decStr nm⟩
+  | _ => none
+
+open RelSpec in
+def decBracket (h : String) : Option Bracket :=
+  match h.splitOn "+" with
+  | pre :: post :: items => do pure ⟨← decGap pre, ← items.mapM decItem, ← decGap post⟩
+  | _ => none
+
+open RelSpec in
+def decVer (h : String) : Option (Option VerPart) :=
+  if h == "none" then some none else
+  match h.splitOn "," with
+  | [pre, g2, op, g3, ep, body, g4] => do
+    pure (some ⟨← decGap pre, ← decGap g2, ← decOp op, ← decGap g3, ⟨← decOptStr ep, ← decStr body⟩, ← decGap g4⟩)
+  | _ => none
+
+open RelSpec in
+def decRel (h : String) : Option RelA :=
+  match h.splitOn ":" with
+  | [nm, aq, ver, archs, profs] => do
+    let a ← if archs == "none" then some none else do pure (some (← decBracket archs))
+    let ps ← if profs.isEmpty then some [] else (profs.splitOn "&").mapM decBracket
+    pure ⟨← decStr nm, ← decOptStr aq, ← decVer ver, a, ps⟩
+  | _ => none
+
+open RelSpec in
+def decAlt (h : String) : Option AltA :=
+  match h.splitOn "~" with
+  | [gb, ga, r] => do pure ⟨← decGap gb, ← decGap ga, ← decRel r⟩
+  | _ => none
+
+open RelSpec in
+def decEntry (h : String) : Option EntryA :=
+  match h.toList with
+  | ['E'] => some .empty
+  | 'S' :: rest =>
+    match (String.ofList rest).splitOn "." with
+    | p :: ps => do pure (.substvar (← decStr p) (← ps.mapM decStr))
+    | [] => none
+  | 'A' :: rest =>
+    match (String.ofList rest).splitOn "|" with
+    | a :: as => do
+      let a ← decAlt a
+      pure (.alts a.rel (← as.mapM decAlt))
+    | [] => none
+  | _ => none
+
+open RelSpec in
+def decSeg (h : String) : Option Seg :=
+  match h.splitOn "/" with
+  | [pre, e, post] => do pure ⟨← decGap pre, ← decEntry e, ← decGap post⟩
+  | _ => none
+
+open RelSpec in
+def decField (h : String) : Option FieldA :=
+  if h == "-" then some ⟨[]⟩ else do pure ⟨← (h.splitOn ";").mapM decSeg⟩
+
+/-- `lossy::Relation` (or the written view) in the format of `viewRel` -/
+def encLossyRel (r : Lossy.Relation) : String :=
+  let ver := match r.version with
+    | none => "none"
+    | some (k, v) => s!"{String.ofList k.display}:{encVersion v}"
+  let arch := match r.architectures with
+    | none => "none"
+    | some l => "[" ++ encList l ++ "]"
+  let prof := "/".intercalate (r.profiles.map fun g => "<" ++ ",".intercalate (g.map encBP) ++ ">")
+  s!"name={encStr r.name};aq={encOpt r.archqual};ver={ver};arch={arch};prof={prof}"
+
+def encEntries (es : List (List Lossy.Relation)) : String :=
+  String.join (es.map fun e => "{" ++ "|".intercalate (e.map encLossyRel) ++ "}")
+
+/-- lossless reader + accessors on a text: `<#errors> E[<entries>] S[<substvars>]` -/
+def losslessView (s : Str) (allow : Bool) : String :=
+  let p := parse s allow
+  s!"{p.errors.length} E[{String.join ((entries p.tree).map viewEntry)}] S[{encList (substvars p.tree)}]"
+
+def lossyView (s : Str) : String :=
+  match Lossy.readRelations s with
+  | .ok es => s!"ok E[{encEntries es}]"
+  | .error _ => "err"
+
+/-- open findings of C10 whose trigger region contains the field (ids as in known_findings.json) -/
+def c10Triggers (f : RelSpec.FieldA) : List String :=
+  (if f.hasNegatedArch then ["F-C10-2"] else [])
+  ++ (if f.hasCloseGap then ["F-C10-3"] else [])
+  ++ (if f.hasNegatedArch && !f.hasSubstvar then ["F-C10-4"] else [])
+  ++ (if f.hasMultiTermGroup && !f.hasSubstvar then ["F-C10-5"] else [])
+  ++ (if f.hasProfileEdgeGap && !f.hasSubstvar then ["F-C10-6"] else [])
+  ++ (if f.hasInnerNewline && !f.hasSubstvar then ["F-C10-7"] else [])
+
+/-- cross-check of the specification (Spec/RelGrammar) against the model on this field, outside
+    the trigger regions: lexer, tree, accessor view, lossy view -/
+def specVerdict (f : RelSpec.FieldA) : String :=
+  if !f.ok then "wf=0" else
+  let bad :=
+    (if lex f.str == f.toks then [] else ["lex"])
+    ++ (if f.hasCloseGap then [] else
+        (if dump (parse f.str true).tree == dump f.tree && (parse f.str true).errors.isEmpty then [] else ["tree"])
+        ++ (if f.hasNegatedArch || accEntries (parse f.str true).tree == some f.view then [] else ["view"])
+        ++ (if substvars (parse f.str true).tree == f.substvars then [] else ["subst"])
+        ++ (if f.hasSubstvar || f.hasNegatedArch || f.hasMultiTermGroup || f.hasProfileEdgeGap
+              || f.hasInnerNewline || Lossy.readRelations f.str == .ok f.view then [] else ["lossy"]))
+  if bad.isEmpty then "wf=1" else "wf=SPEC-MISMATCH:" ++ ",".intercalate bad
+
 def handle (op : String) (args : List String) : Option String :=
   match op, args with
   | "rel.read", [allow, t] => do
@@ -62,6 +194,20 @@ def handle (op : String) (args : List String) : Option String :=
     match readRelation s with
     | .ok r => pure s!"ok {encStr r.text} {dump r}"
     | .error _ => pure "err"
+  | "rel.field", [h] => do
+    let f ← decField h
+    let text := f.str
+    let trig := c10Triggers f
+    let suffix := if trig.isEmpty || !f.ok then "" else "\t!" ++ ",".intercalate trig
+    pure (s!"{encStr text} W[E[{encEntries f.view}] S[{encList f.substvars}]] T1:{losslessView text true} T0:{losslessView text false} L:{lossyView text} {specVerdict f}" ++ suffix)
+  | "rel.lprint", [t] => do
+    let s ← decStr t
+    match Lossy.readRelations s with
+    | .ok es => pure s!"ok {encStr (Lossy.showRelations es)}"
+    | .error _ => pure "err"
+  | "rel.lossy", [t] => do
+    let s ← decStr t
+    pure (lossyView s)
   | "rel.view", [allow, t] => do
     let s ← decStr t
     pure (viewRoot (parse s (allow == "1")).tree)
